@@ -460,6 +460,10 @@ func envelopeRetainedBytes(env *Envelope) int64 {
 }
 
 func (s *MemoryStore) dropOldestQueuedLocked() bool {
+	// Oldest by received_at (insertion order inside ties), matching the
+	// SQLite backend; insertion order alone is wrong for explicit timestamps.
+	oldestID := ""
+	var oldest *Envelope
 	for _, id := range s.order {
 		env := s.items[id]
 		if env == nil {
@@ -468,9 +472,14 @@ func (s *MemoryStore) dropOldestQueuedLocked() bool {
 		if env.State != StateQueued {
 			continue
 		}
-		return s.evictLocked(id, memoryEvictionReasonDropOldest)
+		if oldest == nil || env.ReceivedAt.Before(oldest.ReceivedAt) {
+			oldestID, oldest = id, env
+		}
 	}
-	return false
+	if oldest == nil {
+		return false
+	}
+	return s.evictLocked(oldestID, memoryEvictionReasonDropOldest)
 }
 
 func (s *MemoryStore) maybePruneLocked(now time.Time) {
